@@ -348,6 +348,25 @@ pub fn c04(em: &mut Emit, thorough: bool, seed: u64) {
     let mtimes: [Option<(u64, u32)>; 3] = [None, Some((T0, 0)), Some((T0, 500_000_000))];
     let dates: [Option<u64>; 4] = [None, Some(T0 - 1), Some(T0), Some(T0 + 1)];
     let variants = tag_variants(opaque);
+    let mut fmt_counter = 0usize;
+    // the harness's own date formatter against the parser the crate uses
+    for s in [0u64, 1, 86_399, 86_400, 951_782_400, 951_868_799, T0, 2_147_483_647, 2_147_483_648, 3_000_000_000] {
+        for f in [1u8, 2] {
+            let text = fmt_date(s, f);
+            let back = httpdate::parse_http_date(std::str::from_utf8(&text).unwrap())
+                .ok()
+                .and_then(|t| t.duration_since(UNIX_EPOCH).ok())
+                .map(|d| d.as_secs());
+            // (RFC 850 has a two-digit year: only 1970..2069 round-trips)
+            if f == 2 || s < 3_155_760_000 {
+                em.pred_only(
+                    &format!("date formatter: {} in format {} is {:?}", s, f, String::from_utf8_lossy(&text)),
+                    &pred(back == Some(s), || format!("parses back as {:?}", back)),
+                    "datefmt",
+                );
+            }
+        }
+    }
     // corpus
     {
         let mut e = HEntity::new(10);
@@ -383,6 +402,9 @@ pub fn c04(em: &mut Emit, thorough: bool, seed: u64) {
                                 q.if_none_match = inm.render();
                                 q.ius = ius.map_or(DateH::Absent, DateH::Secs);
                                 q.ims = ims.map_or(DateH::Absent, DateH::Secs);
+                                // the three HTTP-date formats in rotation
+                                fmt_counter += 1;
+                                q.date_fmt = (fmt_counter % 3) as u8;
                                 let o = observe_serve(&q, &e);
                                 let p = c04_pred(
                                     et.as_ref(),
@@ -446,6 +468,8 @@ pub fn c04(em: &mut Emit, thorough: bool, seed: u64) {
                             q.method = method.into();
                             q.ius = ius.map_or(DateH::Absent, DateH::Secs);
                             q.ims = ims.map_or(DateH::Absent, DateH::Secs);
+                            fmt_counter += 1;
+                            q.date_fmt = (fmt_counter % 3) as u8;
                             let o = observe_serve(&q, &e);
                             let p = c04_pred(et.as_ref(), Some(m), &TagHdr::Absent, &TagHdr::Absent, *ius, *ims, &o);
                             em.case(&serve_line(&q, &e, o.now), &o.show(), &p, &format!("future-mtime:{}", o.status));
@@ -1197,6 +1221,29 @@ pub fn c15_requests(rng: &mut Rng, n: usize) -> Vec<(HReq, HEntity)> {
             q.method = "POST".into();
         }
         v.push((q, e));
+    }
+    // positions and lengths just below, at and above powers of ten (digit counts of the numbers
+    // printed into part headers), up to 20 digits
+    {
+        let mut p10 = 1000u64;
+        loop {
+            for len in [p10.saturating_mul(2), u64::MAX] {
+                for d in [1u64, 2] {
+                    if p10 - d + 3 >= len {
+                        continue;
+                    }
+                    let mut e = HEntity::new(len);
+                    e.headers = vec![("x-ent-a".into(), b"v".to_vec())];
+                    let mut q = HReq::get();
+                    q.range = Some(format!("bytes=5-6, {}-{}, {}-{}", p10 - d, p10 - d + 1, p10, p10 + 1).into_bytes());
+                    v.push((q, e));
+                }
+            }
+            p10 = match p10.checked_mul(10) {
+                Some(x) => x,
+                None => break,
+            };
+        }
     }
     // many ranges in one request (tiny parts of a large entity: still a multipart response)
     for k in [16usize, 17, 63, 64, 65, 66, 100, 128, 129, 255, 256, 257, 1000] {
